@@ -327,7 +327,7 @@ def finish(ctx: Ctx, *, level: str, rule: str, assumptions, exhaustive: bool | N
     acc = ctx.acc
     wall = time.time() - ctx.t0
     out_lines = []
-    replay_dir = os.path.join(VERIF, "replays", "_new", ctx.prop)
+    replay_dir = os.path.join(os.environ.get("VERIF_REPLAY_DIR", os.path.join(VERIF, "replays", "_new")), ctx.prop)
     n_viol = 0
     for key in sorted(acc.known):
         e = KNOWN[key]
@@ -363,8 +363,9 @@ def finish(ctx: Ctx, *, level: str, rule: str, assumptions, exhaustive: bool | N
         "coverage": coverage, "assumptions": list(assumptions), "wall_s": round(wall, 2),
         "violations": n_viol,
     }
-    os.makedirs(os.path.join(VERIF, "evidence"), exist_ok=True)
-    with open(os.path.join(VERIF, "evidence", ctx.prop + ".json"), "w") as f:
+    evdir = os.environ.get("VERIF_EVIDENCE_DIR", os.path.join(VERIF, "evidence"))  # override: mutant self-test only
+    os.makedirs(evdir, exist_ok=True)
+    with open(os.path.join(evdir, ctx.prop + ".json"), "w") as f:
         json.dump(ev, f, indent=1, sort_keys=False)
     print("%s %s seed=%d: %d evaluations, %d distinct non-trivial, %d known-finding buckets, %d violations, %.1fs" % (
         ctx.prop, ctx.tier, ctx.seed, acc.evals, coverage["distinct_nontrivial"], len(acc.known), n_viol, wall))
@@ -379,3 +380,60 @@ def run_sync(coro):
         return st.value
     coro.close()
     raise HarnessError("coroutine suspended on the direct path")
+
+
+# ---------------------------------------------------------------------------------------------
+# stateful (rule-based) machines with the same search continuation
+# ---------------------------------------------------------------------------------------------
+def machine_search(acc: Acc, machine_cls, *, seed: int, max_examples: int, step_count: int = 12,
+                   max_buckets: int = 4):
+    """Run a hypothesis.stateful.RuleBasedStateMachine subclass.  The machine reports oracle failures through
+    self.report([(key, msg, case), ...]) (see ReportingMixin); known findings are counted and skipped, a new
+    bucket fails the run, is shrunk by Hypothesis, recorded, excluded, and the search restarts."""
+    import hypothesis
+    from hypothesis import HealthCheck, settings
+    from hypothesis.stateful import run_state_machine_as_test
+
+    excluded = set()
+    for rnd in range(max_buckets):
+        state = {"target": None, "last": None}
+
+        def report(fails, _state=state):
+            hit = None
+            for key, msg, case in fails or []:
+                if key in KNOWN:
+                    acc.fail(key, msg, case)
+                    continue
+                if key in excluded:
+                    continue
+                if _state["target"] is None:
+                    _state["target"] = key
+                if key == _state["target"] and hit is None:
+                    hit = (key, msg, case)
+            if hit is not None:
+                _state["last"] = hit
+                raise _OracleFailure(hit[0] + ": " + hit[1])
+
+        cls = type(machine_cls.__name__ + "_r%d" % rnd, (machine_cls,), {"_report_fn": staticmethod(report), "_acc": acc})
+        st = settings(max_examples=max_examples, stateful_step_count=step_count, deadline=None, database=None,
+                      report_multiple_bugs=False, derandomize=False, print_blob=False,
+                      suppress_health_check=list(HealthCheck), verbosity=hypothesis.Verbosity.quiet)
+        try:
+            run_state_machine_as_test(hypothesis.seed(seed + 7919 * rnd)(cls), settings=st)
+        except _OracleFailure:
+            key, msg, case = state["last"]
+            acc.fail(key, msg, case)
+            excluded.add(key)
+            continue
+        except hypothesis.errors.HypothesisException as ex:
+            raise HarnessError("Hypothesis error in state machine: %r" % (ex,))
+        break
+
+
+class ReportingMixin:
+    """Mixin for RuleBasedStateMachine subclasses used with machine_search."""
+    _report_fn = None
+    _acc = None
+
+    def report(self, fails):
+        type(self)._report_fn(fails)
